@@ -435,7 +435,9 @@ func (p *parser) projectionRHS() *Node {
 	}
 	switch t.k {
 	case tLbracket:
-		if nk := p.peek().k; nk != tNumber && nk != tColon && !(nk == tStar) {
+		nk := p.peek().k
+		star := nk == tStar && p.i+2 < len(p.toks) && p.toks[p.i+2].k == tRbracket
+		if nk != tNumber && nk != tColon && !star {
 			// "x[*][a, b]": the grammar has no such production, but the
 			// reference implementation reads it as a multi-select: not judged
 			p.gap("multi-select list directly after a projection")
@@ -1031,4 +1033,21 @@ func hasFilterOnSpine(n *Node) bool {
 		}
 	}
 	return false
+}
+
+// TokenSpans returns the [start, end) byte spans of the tokens of text (nil
+// if it does not lex).
+func TokenSpans(text string) [][2]int {
+	toks, _, err := lex(text)
+	if err != nil {
+		return nil
+	}
+	var out [][2]int
+	for _, t := range toks {
+		if t.k == tEOF {
+			break
+		}
+		out = append(out, [2]int{t.pos, t.pos + len(t.text)})
+	}
+	return out
 }
